@@ -1,5 +1,5 @@
 (* C09 - Operations terminate, fail cleanly, and keep reachable values consistent.
-   Statements only (the pool-level invariant theorem is added from Proofs/InvariantProofs.v).
+   Statements only.
    * Termination: every model function is a total Coq function (structural recursion or explicit fuel);
      on the implementation side every call of every generated history runs under a watchdog and a
      time-out is a violation.
@@ -12,7 +12,7 @@
      and observes the self-check of every pool object after every step. *)
 From AS Require Import Base Effects.
 From AS.Model Require Import Sgr Tokenizer Table Ops Render Scrub Parse StrOps FormatSpec Exec.
-From AS.Proofs Require Import TableProofs SliceProofs PadProofs ApplyProofs RemoveProofs ConcatProofs ExecProofs.
+From AS.Proofs Require Import TableProofs SliceProofs PadProofs ApplyProofs RemoveProofs ConcatProofs ExecProofs InvariantProofs EditProofs.
 
 Theorem C09_error_unchanged : forall p op e, exec p op = Err e -> fst (step_out p op) = p.
 Proof. exact step_out_err. Qed.
@@ -25,6 +25,50 @@ Theorem C09_index_error : forall (s : astr) (k : Z),
 Proof. intros s k len H. now apply (proj2 (getitem_int_spec s k)). Qed.
 Print Assumptions C09_index_error.
 
+
+(* ---------- THE INVARIANT OVER ALL HISTORIES ----------
+   pool_inv p: every object of the pool is well formed (WFv: change points strictly increasing, none
+   beyond the text, the library's strict self-check passes, no object active twice, nothing left open),
+   every identity in use is below the allocation counter, and one function maps identities to texts for
+   the whole pool (an identity determines its text).
+   One step of ANY of the 29 operations preserves it.  The only side condition concerns the case
+   methods (code 20), whose new text is supplied by Python's str: it must not be SHORTER than the old one
+   (str case mappings never shorten; they can lengthen, and then the invariant still holds). *)
+Theorem C09_step : forall p op p' idxs extra,
+  pool_inv p -> op_ok p op -> exec p op = OK (p', idxs, extra) -> pool_inv p'.
+Proof. exact exec_inv. Qed.
+Print Assumptions C09_step.
+
+(* every pool reachable from the empty pool by successful operations satisfies the invariant ... *)
+Theorem C09_reachable : forall p, reachable_ok p -> pool_inv p.
+Proof. exact reachable_ok_inv. Qed.
+(* ... in particular no reachable value fails the library's own consistency self-check *)
+Theorem C09_self_check : forall p, reachable_ok p ->
+  Forall (fun o => strict_ok (tbl (o_val o)) = true) (objs p).
+Proof. exact reachable_ok_self_check. Qed.
+Print Assumptions C09_reachable.
+Print Assumptions C09_self_check.
+
+(* values built from ANY input string are well formed *)
+Theorem C09_parse_wf : forall w nid, WFv (fst (parse w nid)).
+Proof. exact parse_WFv. Qed.
+Print Assumptions C09_parse_wf.
+
+(* termination of replace: the fuel of the model's loop always suffices - it never answers with the
+   out-of-fuel error, for any pattern (empty included) and any replacement *)
+Theorem C09_replace_terminates : forall s old r count nid e, old <> [] ->
+  replace s old r count nid = Err e -> e = IndexError.
+Proof. exact replace_fuel_enough. Qed.
+Theorem C09_replace_empty_terminates : forall s r count nid e,
+  replace s [] r count nid = Err e -> e = IndexError.
+Proof. exact replace_empty_fuel_enough. Qed.
+Print Assumptions C09_replace_terminates.
+
+(* the side condition is needed in the MODEL (whose Case operation accepts any text): a shorter text
+   breaks the self-check after a further remove_formatting *)
+Example C09_case_side_condition := InvExamples.case_short_breaks_self_check.
+
+(* ---------- per operation ---------- *)
 (* apply_formatting preserves every clause of the invariant *)
 Theorem C09_apply_wf : forall s new st en top,
   ssorted (tbl s) -> nodup_active (tbl s) -> fresh_for new (tbl s) ->
@@ -57,7 +101,7 @@ Proof. intros s. apply (clear_fmt_full s). Qed.
 Print Assumptions C09_remove_wf.
 
 (* concatenation never raises on well-formed operands and gives a well-formed result *)
-Theorem C09_concat_wf : forall a b, WF a -> WF b -> coherent (tbl a) ->
+Theorem C09_concat_wf : forall a b, ConcatProofs.WF a -> ConcatProofs.WF b -> ConcatProofs.coherent (tbl a) ->
   exists c, iadd a b = OK c /\ WF c.
 Proof.
   intros a b Ha Hb Hc. destruct (iadd_ok a b Ha Hb) as [c E]. exists c. split; [exact E|]. exact (iadd_WF a b Ha Hb c Hc E).
